@@ -619,3 +619,39 @@ def enumerate_paths(node, limit=4000):
         return [(conds, atoms + [n], None)]
 
     return one(node, [], [])
+
+
+def each_form(conds, exprs):
+    """Order- and name-insensitive reading of `for a in A { for b in B(a) { f(a, b) } }`:
+    every loop variable is replaced by `each(<iterated expression>)` (earlier loop variables substituted first) in the
+    given expressions and in the remaining (non-loop) facts.  Returns (sorted non-loop fact texts, expression texts).
+    `.iter()`, `.iter_mut()`, `.into_iter()`, `&` on the iterated expression are dropped."""
+    from astlib import strip as _strip
+
+    env = {}
+    rest = []
+    for c in conds:
+        if c[0] == "loop" and c[1] == "for" and c[2] is not None:
+            it = _strip(_subst(c[3], env))
+            while it["k"] == "MethodCall" and it["method"] in ("iter", "iter_mut", "into_iter") and not it["args"]:
+                it = _strip(it["recv"])
+            p = c[2]
+            while p["k"] in ("PRef", "PType"):
+                p = p["pat"]
+            if p["k"] == "PIdent":
+                env[p["name"]] = {"k": "Call", "line": 0, "func": {"k": "Path", "line": 0, "path": "each"}, "args": [it]}
+            elif p["k"] == "PTuple":
+                for i, x in enumerate(p["elems"]):
+                    while x["k"] in ("PRef", "PType"):
+                        x = x["pat"]
+                    if x["k"] == "PIdent":
+                        env[x["name"]] = {"k": "Field", "line": 0, "base": {"k": "Call", "line": 0, "func": {"k": "Path", "line": 0, "path": "each"}, "args": [it]}, "member": str(i)}
+        elif c[0] == "loop":
+            rest.append(fact_str(c).replace(" ", ""))
+        elif c[0] == "if":
+            rest.append(("" if c[2] else "!") + render(_strip(_subst(c[1], env))).replace(" ", ""))
+        elif c[0] == "iflet":
+            rest.append(("" if c[3] else "!") + "(let%s=%s)" % (render(c[1]).replace(" ", ""), render(_strip(_subst(c[2], env))).replace(" ", "")))
+        else:
+            rest.append(fact_str(c).replace(" ", ""))
+    return sorted(rest), [render(_strip(_subst(e, env))).replace(" ", "") for e in exprs]
